@@ -39,7 +39,7 @@ pub struct Plan {
     pub w: usize,           // config.workers (0 = None)
     pub env: Option<String>, // FLACENC_WORKERS
     pub fail_at: Option<usize>,
-    pub bad_block: Option<usize>,
+    pub bad_blocks: Vec<usize>,
     pub bytes_mode: bool,
     pub intensity: u32,
 }
@@ -48,14 +48,14 @@ fn make_source(pcm: &Pcm, bs: usize, plan: &Plan) -> (TestSource, Vec<bool>) {
     let mut p = pcm.clone();
     let nblocks = (p.len() + bs - 1) / bs;
     let mut valid = vec![true; nblocks];
-    if let Some(j) = plan.bad_block {
+    for &j in &plan.bad_blocks {
         if j < nblocks {
             let idx = (j * bs * p.channels + (j * 7) % p.channels.max(1)).min(p.data.len() - 1);
             p.data[idx] = 1 << (p.bps - 1); // one above the maximum
             valid[j] = false;
         }
     }
-    let mut s = TestSource::new(&p, plan.bytes_mode && plan.bad_block.is_none(), true);
+    let mut s = TestSource::new(&p, plan.bytes_mode && plan.bad_blocks.is_empty(), true);
     s.fail_at = plan.fail_at;
     (s, valid)
 }
@@ -141,7 +141,7 @@ pub fn run_case(id: &str, cfg: &Cfg, pcm: &Pcm, plan: &Plan, seed: u64) -> Strin
         trace.push('-');
     }
     // direct oracles
-    let o5 = if plan.fail_at.is_none() && plan.bad_block.is_none() {
+    let o5 = if plan.fail_at.is_none() && plan.bad_blocks.is_empty() {
         // a second multi-thread run WITHOUT the instrumented channels (plain blocking operations),
         // and the stream assembled frame by frame through the frame-level entry point
         let mut c2 = cfg.clone();
@@ -185,10 +185,11 @@ pub fn run_case(id: &str, cfg: &Cfg, pcm: &Pcm, plan: &Plan, seed: u64) -> Strin
             format!("{}:{}", n * pcm.channels * k, valid[j] as u8)
         })
         .collect();
-    let fault = match (plan.fail_at, plan.bad_block) {
-        (None, None) => "nofault",
-        (Some(_), None) => "readfail",
-        (None, Some(_)) => "badsample",
+    let fault = match (plan.fail_at, plan.bad_blocks.len()) {
+        (None, 0) => "nofault",
+        (Some(_), 0) => "readfail",
+        (None, 1) => "badsample",
+        (None, _) => "badsamples",
         _ => "both",
     };
     format!(
@@ -210,9 +211,11 @@ pub fn generate(seed: u64, cases: usize, out: &mut dyn FnMut(String)) {
         let mut c = Cfg::default();
         c.block_size = 64;
         let p = gen::pcm(&mut rng, "sine_noise", 2, 16, 44100, 300);
-        let base = Plan { w: 2, env: None, fail_at: None, bad_block: None, bytes_mode: false, intensity: 30 };
+        let base = Plan { w: 2, env: None, fail_at: None, bad_blocks: vec![], bytes_mode: false, intensity: 30 };
         out(run_case("corpus-f8a-read-error", &c, &p, &Plan { fail_at: Some(2), ..base.clone() }, seed));
-        out(run_case("corpus-f8b-bad-sample", &c, &p, &Plan { bad_block: Some(1), ..base.clone() }, seed));
+        out(run_case("corpus-f8b-bad-sample", &c, &p, &Plan { bad_blocks: vec![1], ..base.clone() }, seed));
+        // more invalid blocks than there are frame buffers (2W): every buffer must come back
+        out(run_case("corpus-many-bad-blocks", &c, &p, &Plan { w: 1, bad_blocks: vec![0, 1, 2, 3, 4], ..base.clone() }, seed));
         out(run_case("corpus-f8c-env-zero", &c, &p, &Plan { w: 0, env: Some("0".into()), ..base.clone() }, seed));
     }
     while i < cases {
@@ -230,7 +233,8 @@ pub fn generate(seed: u64, cases: usize, out: &mut dyn FnMut(String)) {
         let ch = 1 + rng.below(3) as usize;
         let fam = *rng.pick(&gen::FAMILIES);
         let bps = *rng.pick(&gen::BPS);
-        let pcm = gen::pcm(&mut rng, fam, ch, bps, 44100, len);
+        let rate = if rng.chance(50) { *rng.pick(&gen::RATES) } else { 1 + rng.below(96000) as usize };
+        let pcm = gen::pcm(&mut rng, fam, ch, bps, rate, len);
         let (w, env) = match rng.below(10) {
             0 => (0, None), // core count
             1 => (0, Some("3".to_string())),
@@ -243,8 +247,18 @@ pub fn generate(seed: u64, cases: usize, out: &mut dyn FnMut(String)) {
         };
         let fault = rng.below(10);
         let fail_at = if fault == 0 || fault == 1 || fault == 2 { Some(rng.below(nblocks as u64 + 2) as usize) } else { None };
-        let bad_block = if (fault == 2 || fault == 3 || fault == 4) && nblocks > 0 { Some(rng.below(nblocks as u64) as usize) } else { None };
-        let plan = Plan { w, env, fail_at, bad_block, bytes_mode: rng.chance(30), intensity: *rng.pick(&[0u32, 10, 40, 80]) };
+        let mut bad_blocks = vec![];
+        if (fault == 2 || fault == 3 || fault == 4) && nblocks > 0 {
+            // one invalid block, or many (more than the 2W frame buffers when the input is long enough)
+            let k = if rng.chance(50) { 1 } else { 1 + rng.below(2 * w.max(1) as u64 + 3) as usize };
+            for _ in 0..k {
+                let j = rng.below(nblocks as u64) as usize;
+                if !bad_blocks.contains(&j) {
+                    bad_blocks.push(j);
+                }
+            }
+        }
+        let plan = Plan { w, env, fail_at, bad_blocks, bytes_mode: rng.chance(30), intensity: *rng.pick(&[0u32, 10, 40, 80]) };
         out(run_case(&format!("p{i}"), &cfg, &pcm, &plan, seed.wrapping_add(i as u64 * 7919)));
         i += 1;
     }
